@@ -277,7 +277,6 @@ class MultiNestOptimizer(Optimizer):
             modes_weights.append(chains_weights[0])
             modes = [0]
 
-        modes_weights = np.asarray(modes_weights)
         for nmode in range(len(modes)):
             self.debug('Nmode: {}'.format(nmode))
 
